@@ -4,6 +4,7 @@ a second object that is handed the exposed attribute explicitly, and the result 
 attribute.  No expected value is computed here; TLC judges every record (spec/trace/CipherValueTrace.tla).
 
 argv: <families, comma separated or "all"> <scale>      stdout: JSON list of records (grouped by key)"""
+import inspect
 import json
 import os
 import random
@@ -187,13 +188,38 @@ def decrypt_with(o, case, ct, tag):
         if not ct and mode not in ("siv", "ocb") and sum(len(a) for a in case["aads"]) % 3 == 2:
             o.verify(tag)                   # nothing to decrypt: update(); verify() - no decrypt() call at all
             return b""
+        # how the receiver takes the plaintext varies with the case (the value must not): returned, written into a buffer of its own,
+        # written over the ciphertext, or decrypt() and verify() as two calls
+        how = (len(ct) + 2 * len(case["aads"]) + len(case["key"])) % 4
+        if how in (1, 2) and ct and "output" in inspect.signature(o.decrypt_and_verify).parameters:
+            src = bytearray(ct)
+            dst = src if how == 2 else bytearray(len(ct))
+            o.decrypt_and_verify(src, tag, output=dst)
+            return bytes(dst)
+        if how == 3 and mode != "siv":
+            if ct and "output" in inspect.signature(o.decrypt).parameters:
+                buf = bytearray(ct)
+                o.decrypt(buf, output=buf)
+                pt = bytes(buf)
+            else:
+                pt = o.decrypt(ct)
+            if mode == "ocb":
+                pt += o.decrypt()               # OCB: the documented final call without data
+            o.verify(tag)
+            return pt
         return o.decrypt_and_verify(ct, tag)
     # the receiver gets the ciphertext in the same pieces the sender produced it in (block modes: the cuts are on block boundaries already)
     pt = b""
     pos = 0
+    inplace = (len(ct) + len(case["key"])) % 3 == 1 and "output" in inspect.signature(o.decrypt).parameters
     for n in case.get("split", []) + [len(ct)]:
         n = min(n, len(ct))
-        pt += o.decrypt(ct[pos:n])
+        if inplace and n > pos:
+            buf = bytearray(ct[pos:n])             # every third case: the plaintext is written over the ciphertext
+            o.decrypt(buf, output=buf)
+            pt += bytes(buf)
+        else:
+            pt += o.decrypt(ct[pos:n])
         pos = max(pos, n)
     return pt
 
